@@ -24,6 +24,7 @@ HERE = os.path.dirname(os.path.abspath(__file__))
 CASES = {'quick': 4000, 'thorough': 120000}
 PARALLEL = True
 PROOF_TIMEOUT = 1500
+DEPENDS = ['C02']          # Model/C07.v imports Model/C02.v and Gen/Facts_C02.v: the engine regenerates those facts
 ALLOWED_AXIOMS = ()
 RULE = ('random trees (depth<=4, fan-out<=4; names: ASCII, reserved URL characters, spaces, percent signs, colons, '
         'multi-byte text, names that extend a sibling\'s name; a small inadmissible stream: \'\', \'.\', \'..\', \'a/b\', '
